@@ -15,11 +15,15 @@ import (
 	"github.com/gopacket/gopacket"
 )
 
-func decodePrismValue(data []byte, pv *PrismValue) {
+func decodePrismValue(data []byte, pv *PrismValue) error {
 	pv.DID = PrismDID(binary.LittleEndian.Uint32(data[0:4]))
 	pv.Status = binary.LittleEndian.Uint16(data[4:6])
 	pv.Length = binary.LittleEndian.Uint16(data[6:8])
-	pv.Data = data[8 : 8+pv.Length]
+	if 8+int(pv.Length) > len(data) {
+		return ErrPrismInvalidValueLength
+	}
+	pv.Data = data[8 : 8+int(pv.Length)]
+	return nil
 }
 
 type PrismDID uint32
@@ -96,6 +100,8 @@ func (pv *PrismValue) IsSupplied() bool {
 
 var ErrPrismExpectedMoreData = errors.New("Expected more data.")
 var ErrPrismInvalidCode = errors.New("Invalid header code.")
+var ErrPrismInvalidLength = errors.New("Invalid header length.")
+var ErrPrismInvalidValueLength = errors.New("Invalid value length.")
 
 func decodePrismHeader(data []byte, p gopacket.PacketBuilder) error {
 	d := &PrismHeader{}
@@ -113,8 +119,19 @@ type PrismHeader struct {
 func (m *PrismHeader) LayerType() gopacket.LayerType { return LayerTypePrismHeader }
 
 func (m *PrismHeader) DecodeFromBytes(data []byte, df gopacket.DecodeFeedback) error {
+	if len(data) < 24 {
+		df.SetTruncated()
+		return ErrPrismExpectedMoreData
+	}
 	m.Code = binary.LittleEndian.Uint16(data[0:4])
 	m.Length = binary.LittleEndian.Uint16(data[4:8])
+	if m.Length < 24 {
+		return ErrPrismInvalidLength
+	}
+	if int(m.Length) > len(data) {
+		df.SetTruncated()
+		return ErrPrismExpectedMoreData
+	}
 	m.DeviceName = string(data[8:24])
 	m.BaseLayer = BaseLayer{Contents: data[:m.Length], Payload: data[m.Length:len(data)]}
 
@@ -131,7 +148,9 @@ func (m *PrismHeader) DecodeFromBytes(data []byte, df gopacket.DecodeFeedback) e
 
 	m.Values = make([]PrismValue, (m.Length-offset)/12)
 	for i := 0; i < len(m.Values); i++ {
-		decodePrismValue(data[offset:offset+12], &m.Values[i])
+		if err := decodePrismValue(data[offset:offset+12], &m.Values[i]); err != nil {
+			return err
+		}
 		offset += 12
 	}
 
